@@ -4,10 +4,12 @@
         enc/dec  = Spec.XTS.xts_enc / xts_dec of the data (the L0 oracle)
         ek2,ek1  = Model.KeyExp.keyexp_enc of the two keys, dk1 = keyexp_dec k1
         xenc/xdec (only with "exp") = the expanded-key entry model on those schedules
-   W <id> <ks> <k2> <k1> <tweak> <len> <seed> <blk0> <nblk>
-     -> <id> enc <hex> dec <hex>: the spec on the window of blocks [blk0, blk0+nblk) of a long
-        data unit (tweak advanced by xts_tweak_pow); a window that reaches the last full block
-        of a data unit with a partial tail must extend to the end (the generator does that). *)
+   W <id> <ks> <k2> <k1> <tweak> <len> <seed> <blk0> <nbytes> [<tweak of block blk0>]
+     -> <id> enc <hex> dec <hex>: the spec on the window of nbytes bytes starting at block blk0
+        of a long data unit (tweak advanced by xts_tweak_pow, theorem C03_xts_enc_chunks_app); a
+        window that reaches the last full block of a data unit with a partial tail must extend
+        to the end (the generator does that).
+   T <id> <ks> <k2> <tweak> <step> <count> -> <id> <tweak of block 0> <of block step> ... *)
 open Isal
 open Conv
 
@@ -40,11 +42,24 @@ let () = iter_lines (fun line ->
       Buffer.add_string b (" xdec " ^ hex_of_bytes (xts_dec_exp ek2 dk1 tw data))
     end;
     print_endline (Buffer.contents b)
-  | "W" :: id :: _ks :: k2 :: k1 :: tw :: _len :: seed :: blk0 :: nbytes :: _ ->
+  | "T" :: id :: _ks :: k2 :: tw :: step :: count :: _ ->
+    (* the tweaks of blocks 0, step, 2*step, ...: T_0 = E(k2, tweak), then xts_tweak_pow step *)
+    let k2 = bytes_of_hex k2 and tw = bytes_of_hex tw in
+    let step = nat_of_int (int_of_string step) in
+    let t = ref (xts_tweak0 k2 tw) in
+    let b = Buffer.create 4096 in
+    Buffer.add_string b id;
+    for _ = 1 to int_of_string count do
+      Buffer.add_string b (" " ^ hex_of_bytes !t);
+      t := xts_tweak_pow step !t
+    done;
+    print_endline (Buffer.contents b)
+  | "W" :: id :: _ks :: k2 :: k1 :: tw :: _len :: seed :: blk0 :: nbytes :: rest ->
     let k2 = bytes_of_hex k2 and k1 = bytes_of_hex k1 and tw = bytes_of_hex tw in
     let blk0 = int_of_string blk0 and nbytes = int_of_string nbytes in
     let data = sm_bytes (Int64.of_string ("0x" ^ seed)) (16 * blk0) nbytes in
-    let t = xts_tweak_pow (nat_of_int blk0) (xts_tweak0 k2 tw) in
+    (* the tweak of block blk0: given (from a T line) or computed *)
+    let t = (match rest with t0 :: _ -> bytes_of_hex t0 | [] -> xts_tweak_pow (nat_of_int blk0) (xts_tweak0 k2 tw)) in
     let rks = key_expansion k1 in
     let cs = chunks (nat_of_int 16) data in
     print_endline (id ^ " enc " ^ hex_of_bytes (xts_enc_chunks rks t cs) ^ " dec " ^ hex_of_bytes (xts_dec_chunks rks t cs))
